@@ -173,4 +173,61 @@ def matchTxAndUpdate (mm : Murmur) (f : Filter) (tx : Tx) : Option (Bool × Filt
         | none => none
         | some r => some (r, f')
 
+/-! ### `filterload` from the wire: `msg.FilterLoad.Deserialize` + `bloom.LoadFilter` (= `TxFilter.Load`) -/
+
+def maxFilterLoadFilterSize : Nat := 36000
+def maxFilterLoadHashFuncs : Nat := 50
+
+/-- little-endian number of the first `n` bytes; `none` = `io.ReadFull` error (too few bytes). -/
+def readLE : Nat → Bytes → Option (Nat × Bytes)
+  | 0, r => some (0, r)
+  | _ + 1, [] => none
+  | n + 1, b :: r => match readLE n r with
+    | none => none
+    | some (v, r') => some (b.toNat + 256 * v, r')
+
+inductive VarErr
+  | eof      -- io.EOF: not a single byte could be read by the failing read
+  | other    -- io.ErrUnexpectedEOF or a non-canonical encoding
+deriving DecidableEq, Repr
+
+/-- the wider read of `ReadVarUint`: `n` bytes, at least `min` -/
+def readVarWide (n min : Nat) (r : Bytes) : Except VarErr (Nat × Bytes) :=
+  match readLE n r with
+  | none => if r.isEmpty then .error .eof else .error .other
+  | some (v, r') => if v < min then .error .other else .ok (v, r')
+
+/-- `common.ReadVarUint` (canonical encodings only) -/
+def readVarUint : Bytes → Except VarErr (Nat × Bytes)
+  | [] => .error .eof
+  | d :: r =>
+    if d = 0xff then readVarWide 8 0x100000000 r
+    else if d = 0xfe then readVarWide 4 0x10000 r
+    else if d = 0xfd then readVarWide 2 0xfd r
+    else .ok (d.toNat, r)
+
+/-- `FilterLoad.Deserialize`; `none` = an error is returned (the peer is disconnected). -/
+def loadFilter (b : Bytes) : Option Filter :=
+  match readVarUint b with
+  | .error _ => none
+  | .ok (count, r) =>
+    if count > maxFilterLoadFilterSize then none
+    else if r.length < count then none
+    else
+      let bits := r.take count
+      match readLE 4 (r.drop count) with
+      | none => none
+      | some (hf, r1) =>
+        match readLE 4 r1 with
+        | none => none
+        | some (tw, r2) =>
+          if hf > maxFilterLoadHashFuncs then none
+          else match r2 with
+            | [] => none                      -- Flags
+            | _flags :: r3 =>
+              match readVarUint r3 with
+              | .error .eof => some ⟨bits, UInt32.ofNat hf, UInt32.ofNat tw, []⟩   -- `if err == io.EOF { return nil }`
+              | .error .other => none
+              | .ok (n, r4) => some ⟨bits, UInt32.ofNat hf, UInt32.ofNat tw, r4.take n⟩  -- loop stops silently at the end
+
 end ElaVerif.Bloom
